@@ -80,6 +80,13 @@ func c04Canon(o *Outcome) any {
 	return map[string]any{"panic": o.Panic != "", "interrupted": o.Interrupted, "fired": sortedSet(o.Fired), "data": data, "cnt": o.TX["cnt"], "score": o.TX["score"]}
 }
 
+// siblingText is the same configuration with every regex selector moved to the
+// other case-sensitivity class (ARGS family <-> headers / cookies).
+func siblingText(text string) string {
+	sib := strings.NewReplacer("ARGS_GET:/", "\x00C:/", "ARGS_POST:/", "\x00C:/", "ARGS:/", "\x00H:/", "REQUEST_HEADERS:/", "\x00A:/", "REQUEST_COOKIES:/", "\x00G:/").Replace(text)
+	return strings.NewReplacer("\x00C:/", "REQUEST_COOKIES:/", "\x00H:/", "REQUEST_HEADERS:/", "\x00A:/", "ARGS:/", "\x00G:/", "ARGS_GET:/").Replace(sib)
+}
+
 func c04Run(w *verifrt.World, tier Tier) *RunResult {
 	res := &RunResult{}
 	t := w.Work
@@ -133,8 +140,7 @@ func c04Run(w *verifrt.World, tier Tier) *RunResult {
 	// regex selectors moved to the other case-sensitivity class (ARGS family <->
 	// headers / cookies), so that anything cached process-wide under the text of
 	// a selector is shared with a WAF that needs a different value for it
-	sib := strings.NewReplacer("ARGS_GET:/", "\x00C:/", "ARGS_POST:/", "\x00C:/", "ARGS:/", "\x00H:/", "REQUEST_HEADERS:/", "\x00A:/", "REQUEST_COOKIES:/", "\x00G:/").Replace(text)
-	sib = strings.NewReplacer("\x00C:/", "REQUEST_COOKIES:/", "\x00H:/", "REQUEST_HEADERS:/", "\x00A:/", "ARGS:/", "\x00G:/", "ARGS_GET:/").Replace(sib)
+	sib := siblingText(text)
 	if sib != text {
 		if sh, err := buildWAF(sib); err == nil {
 			defer sh.Close()
